@@ -364,6 +364,13 @@ func (cv CertValidity) toTimeStruct() (config.CertificateValidity, error) {
 			m, _ := strconv.Atoi(all[4])
 			d, _ := strconv.Atoi(all[6])
 
+			//the schema puts no limit on the numbers: refuse what int or the calendar arithmetic can't hold
+			for _, n := range []string{all[2], all[4], all[6]} {
+				if _, err := strconv.ParseInt(n, 10, 32); len(n) != 0 && err != nil {
+					return out, errors.New(`config-v1: "duration" is out of range`)
+				}
+			}
+
 			out.Until = out.From.AddDate(y, m, d)
 			out.IsSet = true
 			if !out.IsStatic {
